@@ -512,9 +512,11 @@ def rule_leaf_tables(run, F, cfg):
         ok = Q is not None and len(_paths(Q)) == 1 and _no_negation(D, Q) and bool(re.match(
             r"^filters::network_matchers::check_pattern_regex_filter_at\(up:mask, std::clone::Clone::clone\(.*filters.*\), up:key, up:request, arg:start_from, up:regex_manager\)$", qv))
         why = qv[:120] or str(rows)[:120]
+    outer = f.expr_local(0)
+    ok = ok and bool(re.match(r"^std::option::Option::unwrap_or\(std::option::Option::map\(arg:hostname, closure\[.*\]\(.*\)\), false\)$", outer))
     run.ob("C02.1.leaves", "check_pattern_hostname_anchor_regex_filter:table", ok,
-           "hostname + regex leaf: `any` over all anchored offsets of the regex leaf applied, with ALL patterns, to the URL "
-           f"from that offset ({why})", site=f.loc(0), config=cfg)
+           "hostname + regex leaf: hostname.map(..).unwrap_or(false) of `any` over all anchored offsets of the regex leaf "
+           f"applied, with ALL patterns, to the URL from that offset ({why})", site=f.loc(0), config=cfg)
     g = F.fn(NM + "check_pattern_regex_filter_at")
     m = g.calls(r"^regex_manager::RegexManager::matches$")
     hay = g.expr_operand(m[0][1]["args"][4]) if len(m) == 1 and len(m[0][1]["args"]) > 4 else ""
